@@ -193,7 +193,10 @@ ESC_ROUTES_QUICK = ("direct", "attr-filter", "format-field")
 def make_env(asy, esc=False):
     from jinja2.sandbox import ImmutableSandboxedEnvironment
 
-    return ImmutableSandboxedEnvironment(enable_async=asy, autoescape=esc, extensions=["jinja2.ext.do"], cache_size=0)
+    import jinja2
+
+    return ImmutableSandboxedEnvironment(enable_async=asy, autoescape=esc, extensions=["jinja2.ext.do", "jinja2.ext.i18n"],
+                                         cache_size=0, loader=jinja2.DictLoader({"lib": "{% macro lm() %}L{% endmacro %}"}))
 
 
 def method_case(asy, tname, M, route, tup, compiled=None, esc=False):
@@ -236,6 +239,135 @@ def prime_plain_sandbox(asy, tname, M):
     for src in ("{{ x.%s }}" % M, '{{ x["%s"] }}' % M, '{{ x|attr("%s") }}' % M, '{{ [x]|map(attribute="%s")|list }}' % M,
                 '{{ "{0.%s}".format(x) }}' % M, "{{ x.%s() }}" % M, "{{ x.%s(0) }}" % M):
         sbx.render_code(env, sbx.compile_src(env, src), {"x": fresh(tname)})
+
+
+# ------------------------------------------------------------------ part A': methods reached UNBOUND through the type object
+#
+# `dict.update(d, x=1)`: the receiver of the attribute lookup is the type (the `dict` default global, or a type
+# object handed in as data), the container only appears as the first call argument.
+
+class ListSub(list):
+    pass
+
+
+class DictSub(dict):
+    pass
+
+
+class SetSub(set):
+    pass
+
+
+class DequeSub(collections.deque):
+    pass
+
+
+#: receiver id -> (template expression of the type, type object put in the context as T (None: a global), container type name)
+TYPE_RECEIVERS = {
+    "dict-global": ("dict", None, "dict"),
+    "dict": ("T", dict, "dict"),
+    "list": ("T", list, "list"),
+    "set": ("T", set, "set"),
+    "deque": ("T", collections.deque, "deque"),
+    "dict-subclass": ("T", DictSub, "dict"),
+    "list-subclass": ("T", ListSub, "list"),
+    "set-subclass": ("T", SetSub, "set"),
+    "deque-subclass": ("T", DequeSub, "deque"),
+    "type-in-holder": ("h.x", "holder", "dict"),
+    "type-in-list": ("w[0]", "listitem", "list"),
+    "type-of-literal": ("tt[0]", "tt", "list"),
+}
+#: route id -> fn(type expr E, method M, nargs k) -> template; the container is x, extra arguments a0, a1
+TYPE_ROUTES = [
+    ("direct", lambda E, M, k: "{{ %s.%s(%s) }}" % (E, M, ", ".join(["x"] + [f"a{i}" for i in range(k)]))),
+    ("attr-filter", lambda E, M, k: '{{ (%s|attr("%s"))(%s) }}' % (E, M, ", ".join(["x"] + [f"a{i}" for i in range(k)]))),
+    # no subscript route: T["m"] on a type is types.GenericAlias (dict['update'](x) builds a new dict), not a method
+    ("alias-set", lambda E, M, k: "{%% set f = %s.%s %%}{{ f(%s) }}" % (E, M, ", ".join(["x"] + [f"a{i}" for i in range(k)]))),
+    # (map(attribute=) looks items up first, T["m"], so it is the same GenericAlias)
+    ("macro-arg", lambda E, M, k: "{%% macro m(f, y) %%}{{ f(%s) }}{%% endmacro %%}{{ m(%s.%s, x) }}"
+     % (", ".join(["y"] + [f"a{i}" for i in range(k)]), E, M)),
+    ("kwargs", lambda E, M, k: "{{ %s.%s(x, **kw) }}" % (E, M)),
+    ("format-field", lambda E, M, k: '{{ "<{0.%s}>".format(%s) }}' % (M, E)),
+]
+
+
+def type_case(asy, rid, M, route, tup, compiled=None):
+    expr, T, tname = TYPE_RECEIVERS[rid]
+    src = dict(TYPE_ROUTES)[route](expr, M, len(tup))
+    x = fresh(tname)
+    data = {"x": x, "kw": {"zz": 1}}
+    if T == "holder":
+        data["h"] = Holder(dict)
+    elif T == "listitem":
+        data["w"] = [list]
+    elif T == "tt":
+        data["tt"] = (list, dict)
+    elif T is not None:
+        data["T"] = T
+    for i, ai in enumerate(tup):
+        data[f"a{i}"] = ARG_VALUES[ai][1]()
+    before = copy.deepcopy({k: v for k, v in data.items() if k not in ("T", "h", "w", "tt")})
+    env = make_env(asy)
+    if compiled is None:
+        compiled = sbx.compile_src(env, src)
+    res = sbx.render_code(env, compiled, data)
+    changed = [k for k in before if not same(data[k], before[k])]
+    return src, res, changed, before, data
+
+
+def type_shard(arg):
+    asy, rid, names = arg
+    core.import_all_jinja()
+    p = core.Part()
+    expr, T, tname = TYPE_RECEIVERS[rid]
+    for M in names:
+        is_mut = M in MUTATING[tname] or M in ("__init__", "__setitem__", "__delitem__", "__iadd__", "__imul__", "__ior__",
+                                               "__iand__", "__ixor__", "__isub__", "__setattr__", "__delattr__")
+        is_mut = is_mut and hasattr(pytype(tname), M)
+        dunder = M.startswith("_")
+        worst = None
+        for route, fn in TYPE_ROUTES:
+            if dunder and route not in ("direct", "attr-filter"):
+                continue
+            comp = {}
+            for tup in arg_tuples(2):
+                if route in ("format-field", "kwargs") and tup:
+                    continue
+                k = len(tup)
+                if k not in comp:
+                    comp[k] = sbx.compile_src(make_env(asy), fn(expr, M, k))
+                    if comp[k][0] != "code":
+                        raise core.HarnessError(f"does not compile: {fn(expr, M, k)!r} {comp[k]}")
+                p.evals += 1
+                src, res, changed, before, after = type_case(asy, rid, M, route, tup, comp[k])
+                oc = "ok" if res[0] == "ok" else res[1]
+                p.sig(("type", tname, M, oc))
+                argtxt = "(x" + "".join(", " + ARG_VALUES[i][0] for i in tup) + ")"
+                reached = is_mut and ((res not in (("ok", "<>"), ("ok", "&lt;&gt;"))) if route == "format-field"
+                                      else not (res[0] == "exc" and res[1] == "SecurityError"))
+                if changed or reached:
+                    rank = (0 if changed else 1, len(tup), route != "direct")
+                    what = (f"changed {', '.join(f'{c}: {describe(before[c])} -> {describe(after[c])}' for c in changed)}"
+                            if changed else f"was handed out (outcome {res!r})")
+                    det = {
+                        "msg": f"[async={asy}] mutating method reached through the type object ({rid}): {tname}.{M}{argtxt} via "
+                               f"{route} with x={describe(before['x'])} {what}; template {src!r} -> {res!r}",
+                        "async": asy, "receiver": rid, "method": M, "route": route, "args": argtxt, "template": src,
+                        "script": "from checks import c19\n"
+                                  f"src, res, changed, before, after = c19.type_case({asy!r}, {rid!r}, {M!r}, {route!r}, {tuple(tup)!r})\n"
+                                  "print('template:', src)\n"
+                                  "print('before:', {k: c19.describe(v) for k, v in before.items()})\n"
+                                  "print('after :', {k: c19.describe(after[k]) for k in before})\n"
+                                  "print('result:', res, ' changed:', changed)\n",
+                    }
+                    if worst is None or rank < worst[0]:
+                        worst = (rank, f"C19/{'mutated' if changed else 'reachable'}-through-type/{tname}.{M}", det)
+                if M in ("update", "append") and route == "direct" and tup == (4,):
+                    p.sample({"async": asy, "receiver": rid, "method": M, "route": route, "template": src, "outcome": oc,
+                              "context_changed": changed}, cap=1)
+        if worst:
+            p.violation(worst[1], worst[2])
+    return p
 
 
 def history_shard(arg):
@@ -516,6 +648,74 @@ DIRECT = [
     ("second-statement-other-frame", "{% for i in [1] %}{% if false %}@A[c]{% endif %}{% endfor %}{% for i in [1] %}@A[c]{% endfor %}"),
 ]
 
+_NS = "{% set ns = namespace() %}"
+#: fixed programs: tuple targets that mix a Name and an attribute target of the SAME name (the name is rebound
+#: to a context container inside the very assignment that stores the attribute), block assignments whose body
+#: rebinds the target name, and dotted targets where the grammar has none (must be a syntax error or harmless)
+FIXED = [
+    # ---- Name + NSRef of the same name in one tuple target
+    ("tuple-rebind/name-first", _NS + "{% set ns, ns.x = c, 1 %}"),
+    ("tuple-rebind/attr-first", _NS + "{% set ns.x, ns = 1, c %}{% set ns.y, ns = 2, c %}"),
+    ("tuple-rebind/three", _NS + "{% set q, ns, ns.x = 0, c, 1 %}"),
+    ("tuple-rebind/two-attrs", _NS + "{% set ns, ns.x, ns.k = c, 1, 2 %}"),
+    ("tuple-rebind/attr-name-attr", _NS + "{% set ns.x, ns, ns.y = 1, c, 2 %}"),
+    ("tuple-rebind/nested-tuple", _NS + "{% set (ns, ns.x), q = (c, 1), 2 %}"),
+    ("tuple-rebind/nested-tuple-2", _NS + "{% set q, (ns, ns.x) = 2, (c, 1) %}"),
+    ("tuple-rebind/value-pair-from-context", _NS + "{% set ns, ns.x = pair %}"),
+    ("tuple-rebind/holder", _NS + "{% set ns, ns.x = h.x, 1 %}"),
+    ("tuple-rebind/list-item", _NS + "{% set ns, ns.x = w[0], 1 %}"),
+    ("tuple-rebind/in-loop", _NS + "{% for i in [1, 2] %}{% set ns, ns.x = c, i %}{% endfor %}"),
+    ("tuple-rebind/loop-local-namespace", "{% for i in [1, 2] %}{% set ns = namespace() %}{% set ns, ns.x = c, i %}{% endfor %}"),
+    ("tuple-rebind/loop-var", "{% for ns in [namespace()] %}{% set ns, ns.x = c, 1 %}{% endfor %}"),
+    ("tuple-rebind/in-macro", "{% macro m(ns) %}{% set ns, ns.x = c, 1 %}{% endmacro %}{{ m(namespace()) }}"),
+    ("tuple-rebind/macro-arg-value", "{% macro m(ns, v) %}{% set ns, ns.x = v, 1 %}{% endmacro %}{{ m(namespace(), c) }}"),
+    ("tuple-rebind/in-call-block", "{% macro m() %}{{ caller(namespace()) }}{% endmacro %}{% call(ns) m() %}{% set ns, ns.x = c, 1 %}{% endcall %}"),
+    ("tuple-rebind/in-if", _NS + "{% if true %}{% set ns, ns.x = c, 1 %}{% endif %}"),
+    ("tuple-rebind/in-with", "{% with ns = namespace() %}{% set ns, ns.x = c, 1 %}{% endwith %}"),
+    ("tuple-rebind/in-block", _NS + "{% block b %}{% set ns = namespace() %}{% set ns, ns.x = c, 1 %}{% endblock %}"),
+    ("tuple-rebind/twice", _NS + "{% set ns, ns.x = namespace(), 1 %}{% set ns, ns.x = c, 2 %}"),
+    ("tuple-rebind/existing-key", _NS + "{% set ns, ns.k = c, 99 %}"),
+    ("tuple-rebind/other-alias", _NS + "{% set q = ns %}{% set ns, q.x = c, 1 %}{% set q, q.x = c, 1 %}"),
+    # ---- block assignment whose body rebinds the target name
+    ("block-rebind/set", "{% set c.a %}{% set c = namespace() %}x{% endset %}"),
+    ("block-rebind/set-filter", "{% set c.a | upper %}{% set c = namespace() %}x{% endset %}"),
+    ("block-rebind/existing-key", "{% set c.k %}{% set c = namespace() %}x{% endset %}"),
+    ("block-rebind/namespace-call-args", "{% set c.a %}{% set c = namespace(a=1) %}{{ c.a }}{% endset %}"),
+    ("block-rebind/tuple", "{% set c.a %}{% set c, q = namespace(), 1 %}x{% endset %}"),
+    ("block-rebind/with", "{% set c.a %}{% with c = namespace() %}x{% endwith %}{% endset %}"),
+    ("block-rebind/for", "{% set c.a %}{% for c in [namespace()] %}x{% endfor %}{% endset %}"),
+    ("block-rebind/macro-def", "{% set c.a %}{% macro c() %}{% endmacro %}x{% endset %}"),
+    ("block-rebind/import", '{% set c.a %}{% import "lib" as c %}x{% endset %}'),
+    ("block-rebind/nested-block-set", "{% set c.a %}{% set c %}y{% endset %}x{% endset %}"),
+    ("block-rebind/loop-var", "{% for y in w %}{% set y.a %}{% set y = namespace() %}x{% endset %}{% endfor %}"),
+    ("block-rebind/macro-param", "{% macro m(x) %}{% set x.a %}{% set x = namespace() %}v{% endset %}{% endmacro %}{{ m(c) }}"),
+    ("block-rebind/alias", "{% set g = c %}{% set g.a %}{% set g = namespace() %}x{% endset %}"),
+    ("block-rebind/in-if", "{% if true %}{% set c.a %}{% set c = namespace() %}x{% endset %}{% endif %}"),
+    ("block-rebind/body-if", "{% set c.a %}{% if true %}{% set c = namespace() %}{% endif %}x{% endset %}"),
+    ("block-rebind/after-real-namespace", _NS + "{% set ns.a %}{% set ns = c %}x{% endset %}{% set ns.b %}y{% endset %}"),
+    # ---- dotted / subscripted targets where the grammar has no attribute targets
+    ("dotted-target/with", "{% with c.x = 1 %}{% endwith %}"),
+    ("dotted-target/with-second", "{% with q = 1, c.x = 2 %}{% endwith %}"),
+    ("dotted-target/with-existing-key", "{% with c.k = 99 %}{{ c.k }}{% endwith %}"),
+    ("dotted-target/with-loop-var", "{% for y in w %}{% with y.x = 1 %}{% endwith %}{% endfor %}"),
+    ("dotted-target/with-macro-param", "{% macro m(x) %}{% with x.a = 1 %}{% endwith %}{% endmacro %}{{ m(c) }}"),
+    ("dotted-target/with-holder", "{% with h.x.a = 1 %}{% endwith %}"),
+    ("dotted-target/for", "{% for c.x in [1] %}{% endfor %}"),
+    ("dotted-target/for-tuple", "{% for i, c.x in [(1, 2)] %}{% endfor %}"),
+    ("dotted-target/for-loop-var", "{% for y in w %}{% for y.x in [1] %}{% endfor %}{% endfor %}"),
+    ("dotted-target/macro-param", "{% macro m(c.x) %}{% endmacro %}{{ m(1) }}"),
+    ("dotted-target/call-param", "{% macro m() %}{{ caller(1) }}{% endmacro %}{% call(c.x) m() %}{% endcall %}"),
+    ("dotted-target/import-as", '{% import "lib" as c.x %}'),
+    ("dotted-target/from-import-as", '{% from "lib" import lm as c.x %}'),
+    ("dotted-target/set-two-levels", "{% set c.x.y = 1 %}"),
+    ("dotted-target/set-subscript", '{% set c["x"] = 1 %}'),
+    ("dotted-target/set-call", "{% set c.update(x=1) = 1 %}"),
+    ("dotted-target/set-block-two-levels", "{% set c.x.y %}v{% endset %}"),
+    ("dotted-target/block-name", "{% block c.x %}{% endblock %}"),
+    ("dotted-target/trans-var", "{% trans c.x=1 %}t{% endtrans %}"),
+    ("dotted-target/filter-block", "{% filter c.x %}{% endfilter %}"),
+]
+
 
 def _assign(pat, target):
     return pat.replace("@T", target)
@@ -534,12 +734,14 @@ def partc_programs():
                 src = src.replace(f"@A[{t}]", _assign(apat, t))
             if "@A" in dpat or aid == "set":
                 out.append((f"assign/{did}/{aid}", src))
+    for fid, src in FIXED:
+        out.append((f"{fid}/fixed", src))
     return out
 
 
 def partc_case(asy, esc, tname, src, compiled=None):
     x = fresh(tname)
-    data = {"c": x, "h": Holder(x), "w": [x], "flag": False}
+    data = {"c": x, "h": Holder(x), "w": [x], "flag": False, "pair": (x, 1)}
     before = copy.deepcopy(data)
     env = make_env(asy, esc)
     if compiled is None:
@@ -592,7 +794,8 @@ def partc_shard(arg):
 
 def dispatch(arg):
     kind, payload = arg
-    return {"method": method_shard, "filter": filter_shard, "partc": partc_shard, "history": history_shard}[kind](payload)
+    return {"method": method_shard, "filter": filter_shard, "partc": partc_shard, "history": history_shard,
+            "type": type_shard}[kind](payload)
 
 
 def chunks(xs, n):
@@ -631,6 +834,14 @@ def run(ctx: core.Ctx):
     fnames = sorted(make_env(False).filters)
     allshards = [("method", sh) for sh in shards]
     allshards += [("filter", (asy, esc, c)) for asy in (False, True) for esc in (False, True) for c in chunks(fnames, 2)]
+    for rid, (expr, T, tname) in TYPE_RECEIVERS.items():
+        tnames = dir(pytype(tname))
+        public = [n for n in tnames if not n.startswith("_")]
+        dunder = [n for n in tnames if n.startswith("_")]
+        for asy in (False, True):
+            allshards += [("type", (asy, rid, c)) for c in chunks(public, 6)]
+            if not ctx.quick or rid in ("dict-global", "list", "set", "deque"):
+                allshards += [("type", (asy, rid, c)) for c in chunks(dunder, 12)]
     nprog = len(partc_programs())
     allshards += [("partc", (asy, esc, lo, lo + 40)) for asy in (False, True) for esc in (False, True)
                   for lo in range(0, nprog, 40)]
@@ -639,6 +850,7 @@ def run(ctx: core.Ctx):
         "types": TYPES, "names_per_type": nnames, "arg_values": [a for a, _ in ARG_VALUES], "max_args_public": 2 if ctx.quick else 3,
         "max_args_underscore": 1 if ctx.quick else 2, "routes": len(ROUTES), "filters": len(fnames),
         "filter_value_forms": VALUE_FORMS, "filter_dummies": DUMMIES, "modes": ["sync", "async"], "autoescape": [False, True], "filter_container_types": B_TYPES,
+        "type_object_receivers": list(TYPE_RECEIVERS), "type_object_routes": len(TYPE_ROUTES),
         "two_environment_history_routes": list(PRIMED_ROUTES), "assignment_programs": nprog, "assignment_container_types": C_TYPES,
         "method_routes_under_autoescape": list(ESC_ROUTES_QUICK) if ctx.quick else "all",
     }
